@@ -210,6 +210,13 @@ func (g *DocGen) newTerm(kind string, depth int) *Term {
 		case "":
 		case "custom":
 			t.DT = "urn:ex:types#custom"
+			if g.r.Chance(60) {
+				// the other datatypes of XML Schema (and friends): the library knows nothing special about them - "any other
+				// type as the hash of the string", whatever the string looks like
+				t.DT = g.r.Pick([]string{xsdNS + "int", xsdNS + "long", xsdNS + "short", xsdNS + "byte", xsdNS + "unsignedInt", xsdNS + "unsignedLong", xsdNS + "unsignedShort",
+					xsdNS + "decimal", xsdNS + "float", xsdNS + "date", xsdNS + "time", xsdNS + "anyURI", xsdNS + "gYear", xsdNS + "duration", xsdNS + "base64Binary", xsdNS + "token",
+					"http://www.w3.org/1999/02/22-rdf-syntax-ns#HTML", "https://schema.org/Date", xsdNS + "Integer", xsdNS + "datetime"})
+			}
 		default:
 			t.DT = xsdNS + dt
 		}
@@ -276,7 +283,7 @@ func (g *DocGen) litFor(dt string) *ALit {
 			s := g.str()
 			return &ALit{DT: xsdNS + "string", Kind: "str", Canon: s, JSON: s}
 		}
-	case strings.HasSuffix(local, "nteger") && strings.HasPrefix(dt, xsdNS):
+	case strings.HasPrefix(dt, xsdNS) && (local == "integer" || local == "nonNegativeInteger" || local == "positiveInteger" || local == "negativeInteger" || local == "nonPositiveInteger"):
 		pr := g.prime
 		if pr == nil {
 			pr = hPoseidon().Prime
@@ -417,6 +424,11 @@ func (g *DocGen) litFor(dt string) *ALit {
 			}
 		}
 		s := g.str()
+		if strings.HasPrefix(dt, xsdNS) && r.Chance(65) {
+			// values that look like what the datatype suggests
+			s = r.Pick([]string{"0", "1", "-1", "42", "127", "255", "-128", "32767", "65535", "2147483647", "-2147483648", "4294967295", "9223372036854775807", "18446744073709551615",
+				"3.14", "1e3", "2024-02-29", "12:30:00", "P1D", "2024", "true", "aGVsbG8=", "http://example.com/x", " 7 ", "007", "+5", "1.0"})
+		}
 		return &ALit{DT: dt, Kind: "str", Canon: s, JSON: s}
 	}
 }
